@@ -1837,6 +1837,9 @@ func (g *c02GenState) exps(nops, count, depth int) []Sx {
 	out := []Sx{}
 	for i := 0; i < count; i++ {
 		j := r.Intn(nops + 2)
+		if r.Chance(50) {
+			j = nops/3 + r.Intn(nops-nops/3+2)
+		}
 		if r.Chance(6) {
 			j = -1
 		}
@@ -1908,7 +1911,14 @@ func (c02) Gen(r *Rand, i int, tier string) Sx {
 		nops = 20 + r.Intn(70)
 		nexp = 20 + r.Intn(40)
 	}
-	ops := g.ops(nops, 0)
+	// warm-up: something is committed early, so that most crash points have a state file to come back to
+	warm := []Sx{}
+	for k := 0; k < 2+r.Intn(3); k++ {
+		kk, v := g.pickKV()
+		warm = append(warm, L(A(1), AI(kk), AI(v)))
+	}
+	warm = append(warm, c02Commit(r, int(cfg.interval), 100)...)
+	ops := append(warm, g.ops(nops, 0)...)
 	exps := g.exps(len(ops), nexp, 0)
 	c := L(AI(cfg.sector), AI(cfg.spb), AI(cfg.old), AI(cfg.cur), AI(cfg.nw), AI(cfg.spare), AI(cfg.nrec), AI(cfg.maxGet), AI(cfg.maxPut),
 		A(cfg.interval), AB(cfg.validate))
